@@ -16,11 +16,11 @@ PROFILES = {
     'S1': dict(create=20, createw=6, destroy=18, probe=25, iterd=4, clone=2, switch=2, dump=4, len=4, todirect=3, reg=2,
                forged=3, readall=2),
     'S2': dict(create=14, destroy=8, write=25, readall=18, probe=10, find=8, iter=8, clone=2, switch=2, reg=1, createw=2),
-    'S3': dict(create=10, destroy=8, forged=40, probe=5, dump=4, clone=2, switch=2, newworld=3, foreign=10, preset=2),
+    'S3': dict(create=10, destroy=8, forged=40, probe=5, dump=4, clone=2, switch=2, newworld=3, foreign=10, preset=2, fdirect=4),
     'S4': dict(create=18, createw=10, destroy=16, ddestroy=4, iterd=8, clone=5, dropw=5, switch=4, reg=16, todirect=3, newworld=3, write=3),
     'S5': dict(create=14, destroy=10, iter=25, readall=15, iterd=6, createw=3, len=3, find=6, write=6),
     'S6': dict(create=16, destroy=6, iterd=25, probe=10, readall=10, iter=5, reg=3, todirect=3),
-    'S8': dict(create=12, destroy=12, todirect=18, probe=10, dprobe=25, ddestroy=6, iter=5, iterd=5, find=5, createw=2),
+    'S8': dict(create=12, destroy=12, todirect=18, probe=10, dprobe=25, ddestroy=6, iter=5, iterd=5, find=5, createw=2, fdirect=3),
     'S9': dict(create=14, destroy=8, fault=12, clone=8, dropw=5, iter=6, iterd=8, reg=10, probe=8, readall=5, createw=3, newworld=3),
     'S11': dict(create=14, destroy=10, clone=10, switch=10, probe=14, readall=10, dump=6, reg=4, createw=6, write=6, dropw=2, events=4),
     'S12': dict(create=16, createw=5, destroy=14, iterd=8, events=20, clearev=8, clone=3, switch=3, ddestroy=3, todirect=3),
@@ -450,6 +450,47 @@ class Gen:
         else:
             self.op_dprobe()
 
+    def op_fdirect(self):
+        """A direct handle from the future: issued in a clone after a removal there (so its version is ahead of
+        the original's), then presented to the original world. Direct handles cannot be forged from bits, so
+        this is the only way to meet a version the storage has not reached yet."""
+        live = [(a, ks) for a, ks in self.live.get(self.cur, {}).items() if len(ks) >= 2]
+        if not live or self.nworlds >= 5:
+            return self.op_create()
+        a, ks = self.rng.choice(live)
+        orig = self.cur
+        obs = self.do(('clone',))
+        if not obs or obs[0] != 1:
+            return
+        clone = obs[1]
+        self.nworlds += 1
+        self.alive.append(True)
+        self.live[clone] = {b: list(v) for b, v in self.live.get(orig, {}).items()}
+        self.do(('switch', clone))
+        self.cur = clone
+        victim, keeper = ks[0], ks[-1]
+        self.do(('destroy', 'w', 'e', 'any', ('i', victim)))
+        self.refresh(a)
+        o2 = self.do(('todirect', 'w', 'e', 'any', ('i', keeper)))
+        got = bool(o2 and o2[0] == 1)
+        if got:
+            self.ndirects += 1
+            self.direct_arch.append(self.arch_of_raw_direct((o2[1], o2[2])))
+        self.do(('switch', orig))
+        self.cur = orig
+        if got:
+            k = self.ndirects - 1
+            self.do(('len', a))          # shows the version the original storage is at (used by the direct-version oracle)
+            for ty in ('any', ('t', a)):
+                lvl = self.level_for(ty, a)
+                self.do(('probe', lvl, 'd', ty, ('d', k)))
+            fo = self.do(('find', 0, self.rng.random() < 0.5, 'd', 'any', ('d', k), 0))
+            self.count_new_directs_from_visits(0, fo, is_find=True)
+            if self.rng.random() < 0.5:
+                self.do(('destroy', 'w', 'd', 'any', ('d', k)))
+                for b in range(self.na):
+                    self.refresh(b)
+
     def op_preset(self):
         # only meaningful on an archetype that never issued a handle in a fresh world
         self.op_new()
@@ -533,7 +574,7 @@ class Gen:
                      reg=self.op_reg, forged=self.op_forged, readall=self.op_readall, write=self.op_write,
                      find=self.op_find, dprobe=self.op_dprobe, ddestroy=self.op_ddestroy, fault=self.op_fault,
                      dropw=self.op_dropw, newworld=self.op_new, foreign=self.op_foreign, preset=self.op_preset,
-                     events=self.op_events, clearev=self.op_clearev, conv=self.op_conv, borrow=self.op_borrow)
+                     events=self.op_events, clearev=self.op_clearev, conv=self.op_conv, borrow=self.op_borrow, fdirect=self.op_fdirect)
         n = self.rng.randrange(self.maxlen // 3, self.maxlen + 1)
         while len(self.s.cur['ops']) < n:
             if not any(self.alive):
